@@ -1577,6 +1577,7 @@ def run_step(project, cls, nsteps=1, rhs_owned=False):
         e = DataDependentStep("%s.step takes a data-dependent shortcut: its update differs between the paths [%s]" % (cls.qualname, " | ".join(texts[:2])))
         e.violation = ("STEP-ONE-FORMULA", cls.qualname, "the effect of step() depends on a condition on the VALUES of the data (%s): on that path the update is not the same combination of right-hand-side evaluations -- the step is not one Runge-Kutta / theta-scheme formula for every right-hand side (a time-dependent right-hand side can vanish at the start of a step without vanishing at the later stages; a small Jacobian does not make the implicit step explicit)" % " | ".join(texts[:2]),
                        "data-dependent-step", {"C04", "C05", "C06"})
+        e.paths = [(pol, out, log) for pol, ai, out, log in done]
         raise e
     return done[0][1], done[0][2]
 
